@@ -35,9 +35,9 @@ ASSUMPTIONS = ["Python integers, hashlib SHA-256 and the affine curve model (ver
 
 def parts(tier):
     q = tier == "quick"
-    ps = [dict(part="ecdsa", cfg="asan256", shards=4 if q else 6),
-          dict(part="ec", cfg="asan256", shards=3 if q else 6),
-          dict(part="rsa", cfg="asan256", shards=3 if q else 4),
+    ps = [dict(part="ecdsa", cfg="asan256", shards=3 if q else 6),
+          dict(part="ec", cfg="asan256", shards=5 if q else 8),
+          dict(part="rsa", cfg="asan256", shards=2 if q else 4),
           dict(part="pairing", cfg="asan256", shards=6 if q else 8)]
     if not q:
         ps += [dict(part="rsa", cfg="rsa-pkcs1", shards=4), dict(part="rsa", cfg="rsa-basic", shards=4)]
@@ -438,6 +438,7 @@ class Scheme(Base):
     eqn() -> True / False / None (None: the definition does not decide this input)"""
     msg_kind = "bytes"       # 'bytes' | 'bn' | None
     maxlen = 300
+    directed_only = ()       # (component, class) pairs produced only by a directed case (fatal on some trees)
     curve_model = True       # the Python curve model is available for 'ec' components
 
     def __init__(self, ctx, R):
@@ -588,6 +589,7 @@ class Scheme(Base):
         """run every mutation of every component (or of those selected by `only`) of the current honest instance"""
         ctx, R, rng = self.ctx, self.R, self.rng
         comps = self.comps()
+        self.all_identity(cname)
         for c in comps:
             if only is not None and not only(c):
                 continue
@@ -601,6 +603,8 @@ class Scheme(Base):
                         if so != saved:
                             lst.append(("swapped", (lambda so=so: self.restore(c, so))))
             for cls, apply in lst:
+                if (c.name, cls) in self.directed_only:
+                    continue
                 key = "%s|%s:%s" % (self.verfn, re.sub(r"\d*\[\d+\]|\d+$", "", c.name), cls)
                 if not ctx.begin(key, [cname, self.name]):
                     continue
@@ -623,6 +627,30 @@ class Scheme(Base):
                 finally:
                     self.restore(c, saved)
                     ctx.end()
+
+    def all_identity(self, cname):
+        """every group-element component of signature and key replaced by the identity at once"""
+        ctx, R = self.ctx, self.R
+        comps = [c for c in self.comps() if c.kind in ("ec", "g1", "g2")]
+        if len(comps) < 2 or any((c.name, "identity") in self.directed_only for c in comps):
+            return
+        if not ctx.begin("%s|all-points:identity" % self.verfn, [cname, self.name]):
+            return
+        saved = [(c, self.snap(c)) for c in comps]
+        try:
+            for c in comps:
+                R.call("ep2_set_infty" if c.kind == "g2" else "ep_set_infty", c.ptr)
+            ctx.cur_desc = [cname, self.describe()]
+            lv = self.verdict(self.ver())
+            ev = self.eqn()
+            if ev is not None:
+                self.judge(lv, ev, {"lib": lv, "equation": ev})
+        except MonitorViolation as e:
+            ctx.fail(ctx.cur_key + "|" + e.kind, e.detail)
+        finally:
+            for c, sv in saved:
+                self.restore(c, sv)
+            ctx.end()
 
     def honest(self, cname, msg, what="honest", eq_rate=1.0):
         """sign msg and require acceptance by the library and (on a sample) by the equation"""
@@ -673,6 +701,23 @@ class EcScheme(Scheme):
 
 class Vbnn(EcScheme):
     name, sigfn, verfn = "vbnn", "cp_vbnn_sig", "cp_vbnn_ver"
+    # R = identity makes cp_vbnn_ver overrun its stack buffer on the unchanged tree: one directed case only
+    directed_only = (("R", "identity"),)
+
+    def directed_identity(self, cname):
+        ctx, R = self.ctx, self.R
+        if not ctx.begin("cp_vbnn_ver|R:identity", [cname, "directed"]):
+            return
+        try:
+            if self.setup() and self.sign(b"abc"):
+                R.pt_put(self.r, None)
+                ctx.cur_desc = [cname, self.describe()]
+                lv = self.verdict(self.ver())
+                self.judge(lv, self.eqn(), {"lib": lv})
+        except MonitorViolation as e:
+            ctx.fail(ctx.cur_key + "|" + e.kind, e.detail)
+        finally:
+            ctx.end()
 
     def setup(self):
         R = self.R
@@ -1027,6 +1072,101 @@ class Ers(PokOr):
         return None if und else True
 
 
+class Etrs(PokOr):
+    """extendable threshold ring signature: completeness of sign / extend / join and the binding of message and
+    membership proofs.  The threshold relation between trapdoors and ring is not judged (see module report)."""
+
+    def __init__(self, ctx, R, mode="ext"):
+        EcScheme.__init__(self, ctx, R)
+        self.mode = mode
+        self.name = "etrs-" + mode
+        self.sigfn, self.verfn = "cp_etrs_sig", "cp_etrs_ver"
+        self.msg_kind = "bytes"
+        self.max = 3
+
+    def setup(self):
+        R, K = self.R, self.R.K
+        self.st = K["sizeof_etrs_st"]
+        N = 3
+        self.ring = R.mem(self.st * N, 0)
+        bs = R.bn_sz
+        self.boff = [K["off_etrs_st_c"], K["off_etrs_st_c"] + bs, K["off_etrs_st_r"], K["off_etrs_st_r"] + bs, K["off_etrs_st_y"]]
+        self.eoff = [K["off_etrs_st_h"], K["off_etrs_st_pk"]]
+        for i in range(N):
+            for off in self.boff:
+                R.call("bn_make", self.ring + i * self.st + off, R.BN_SIZE)
+                R.bn_put(self.ring + i * self.st + off, 0)
+            for off in self.eoff:
+                R.call("ep_set_infty", self.ring + i * self.st + off)
+        self.td, self.y = R.arr("bn", self.max), R.arr("bn", self.max)
+        self.pp = R.new("ec")
+        self.sks = [R.new("bn") for _ in range(N)]
+        self.pks = [R.new("ec") for _ in range(N)]
+        self.cnt = R.cell(0)
+        self.msg = Comp("msg", "bytes", "msg", val=b"")
+        if R.call("cp_ers_gen", self.pp).i != R.OK:
+            return False
+        for i in range(N):
+            if R.call("cp_ers_gen_key", self.sks[i], self.pks[i]).i != R.OK:
+                return False
+        return True
+
+    def sign(self, msg):
+        R = self.R
+        self.msg.val = msg
+        m = R.bytes_in(msg)
+        try:
+            res = R.call("cp_etrs_sig", self.td, self.y, self.max, self.ring, m, len(msg), self.sks[0], self.pks[0], self.pp)
+            if res.caught or res.i != R.OK:
+                return False
+            R.wr_sz(self.cnt, 1)
+            self.thres, self.skip = 1, 0
+            if self.mode == "ext":
+                res = R.call("cp_etrs_ext", self.td, self.y, self.max, self.ring, self.cnt, m, len(msg), self.pks[1], self.pp)
+                self.skip = 1
+            elif self.mode == "uni":
+                res = R.call("cp_etrs_uni", 1, self.td, self.y, self.max, self.ring, self.cnt, m, len(msg), self.sks[1], self.pks[1], self.pp)
+                self.thres = 2
+            if res.caught or res.i != R.OK:
+                return False
+            self.size = R.rd_sz(self.cnt)
+            return True
+        finally:
+            R.free(m)
+
+    def comps(self):
+        cs = [self.msg]
+        for i in range(self.size):
+            b = self.ring + i * self.st
+            for nm, off in zip(["c0", "c1", "r0", "r1"], self.boff):
+                cs.append(Comp("%s[%d]" % (nm, i), "bn", "sig", b + off))
+            cs.append(Comp("pk[%d]" % i, "ec", "pk", b + self.eoff[1]))
+        return cs
+
+    def ver(self):
+        R = self.R
+        m = R.bytes_in(self.msg.val)
+        try:
+            return R.call("cp_etrs_ver", self.thres, self.td + self.skip * R.bn_sz, self.y + self.skip * R.bn_sz, self.max - self.skip,
+                          self.ring, self.size, m, len(self.msg.val), self.pp)
+        finally:
+            R.free(m)
+
+    def eqn(self):
+        """necessary condition only: every membership proof verifies for the message (None = not decided here)"""
+        R = self.R
+        for i in range(self.size):
+            b = self.ring + i * self.st
+            sc = [self.scal(b + o) for o in self.boff[:4]]
+            pts = [R.pt(b + o) for o in self.eoff]
+            if not self.points_ok(*pts):
+                return False
+            v = self.orproof(sc[0:2], sc[2:4], pts, [R.G, R.G], self.msg.val, False)
+            if v is False:
+                return False
+        return None
+
+
 def run_ec(ctx):
     R = PX(ctx.cfg)
     rng = ctx.rng
@@ -1034,12 +1174,17 @@ def run_ec(ctx):
     ctx.note("curves", [nm for nm, _ in ids])
     q = ctx.quick
     di = 0
+    if ctx.shard == 0 and ids:
+        # directed cases that are fatal on some trees run first (a restart repeats the shard from its start)
+        R.set_curve(ids[0][1])
+        Vbnn(ctx, R).directed_identity(ids[0][0])
     for ci, (nm, cid) in enumerate(ids):
         R.set_curve(cid)
         schemes = [Vbnn(ctx, R), PokDl(ctx, R), SokDl(ctx, R), PokOr(ctx, R),
                    PokOr(ctx, R, True, False, 0), PokOr(ctx, R, True, False, 1),
                    PokOr(ctx, R, True, True, 0), PokOr(ctx, R, True, True, 1),
-                   Ers(ctx, R, 1), Ers(ctx, R, 3), Ers(ctx, R, 1, True), Ers(ctx, R, 2, True)]
+                   Ers(ctx, R, 1), Ers(ctx, R, 3), Ers(ctx, R, 1, True), Ers(ctx, R, 2, True),
+                   Etrs(ctx, R, "sig"), Etrs(ctx, R, "ext"), Etrs(ctx, R, "uni")]
         for si, sch in enumerate(schemes):
             di += 1
             sch.di = di * 1000
@@ -1056,10 +1201,12 @@ def run_ec(ctx):
             if not ok:
                 continue
             # completeness over message lengths (split over shards)
-            heavy = isinstance(sch, Ers)
+            heavy = isinstance(sch, (Ers, Etrs))
             t0 = time.time()
             if sch.msg_kind == "bytes":
                 stride = 7 if heavy else (5 if sch.name.startswith("sokor-") else 1)
+                if isinstance(sch, Etrs):
+                    stride = 23
                 for L in range(ci % stride, 301, stride):
                     if sch.mine():
                         sch.honest(nm, sch.rbytes(L), eq_rate=0.1)
@@ -1069,6 +1216,8 @@ def run_ec(ctx):
             # mutation soundness: one owner shard per (curve, scheme); exhaustive bit flips on a third of them
             if not ctx.mine(di) and q:
                 continue
+            if q and isinstance(sch, Etrs) and (ci + si) % 3:
+                continue
             if not sch.honest(nm, sch.rbytes(rng.choice([1, 5, 20])) if sch.msg_kind == "bytes" else b"", "mutation-base"):
                 continue
             full = ()
@@ -1077,7 +1226,9 @@ def run_ec(ctx):
                 full = set(scal if not heavy else scal[:4])
             t0 = time.time()
             only = None
-            if heavy and sch.size > 1 and q:
+            if isinstance(sch, Etrs):
+                full = ()
+            elif heavy and sch.size > 1 and q:
                 last = "[%d]" % (sch.size - 1)
                 only = lambda c: "[" not in c.name or c.name.endswith(last)
                 full = set(["td"]) if full else ()
@@ -1387,6 +1538,533 @@ def run_rsa(ctx):
     ctx.note("error_codes_seen", {str(k): v for k, v in R.err_codes.items()})
 
 
+
+# =====================================================================================================
+# Pairing-based schemes: equations evaluated with lower-layer library primitives
+# =====================================================================================================
+class PairScheme(Scheme):
+    hashed_flag = False       # the scheme has a hash / pre-hashed flag
+    maxlen = 300
+
+    def base_setup(self):
+        R = self.R
+        self.t1, self.t1b = R.new("g1"), R.new("g1")
+        self.t2, self.t2b = R.new("g2"), R.new("g2")
+        self.e1, self.e2 = R.new("gt"), R.new("gt")
+        self.tb = R.new("bn")
+        self.g2gen = R.new("g2")
+        R.call("g2_get_gen", self.g2gen)
+        self.g1gen = R.new("g1")
+        R.call("g1_get_gen", self.g1gen)
+        self.msg = Comp("msg", "bytes", "msg", val=b"")
+        self.pre = 0
+
+    # ----------------------------------------------------------- lower-layer helpers
+    def on1(self, P):
+        return self.R.call("ep_on_curve", P).i == 1
+
+    def inf1(self, P):
+        return self.R.call("ep_is_infty", P).i == 1
+
+    def valid2(self, Q):
+        return self.R.call("g2_is_valid", Q).i == 1
+
+    def pair_eq(self, P1, Q1, P2, Q2):
+        """e(P1, Q1) == e(P2, Q2) for normalised inputs"""
+        R = self.R
+        R.call("pc_map", self.e1, P1, Q1)
+        R.call("pc_map", self.e2, P2, Q2)
+        return R.call("gt_cmp", self.e1, self.e2).i == R.EQ
+
+    def m_int(self, b, hashed):
+        """message bytes -> scalar as the schemes define it"""
+        return int.from_bytes(H(b) if hashed else b, "big") % self.R.n
+
+    def g1_lin(self, out, terms):
+        """out = sum k_i P_i (lower-layer g1 arithmetic), normalised"""
+        R = self.R
+        R.call("ep_set_infty", out)
+        for k, P in terms:
+            R.bn_put(self.tb, k)
+            R.call("g1_mul", self.t1b, P, self.tb)
+            R.call("g1_add", out, out, self.t1b)
+        R.call("g1_norm", out, out)
+        return out
+
+    def g2_lin(self, out, terms):
+        R = self.R
+        R.call("ep2_set_infty", out)
+        for k, P in terms:
+            R.bn_put(self.tb, k)
+            R.call("g2_mul", self.t2b, P, self.tb)
+            R.call("g2_add", out, out, self.t2b)
+        R.call("g2_norm", out, out)
+        return out
+
+    def g2_nonmember(self, Q):
+        """a point of the twist outside the order-n subgroup, from fp2 arithmetic of the lower layer"""
+        R, rng = self.R, self.rng
+        p = R.curve["p"]
+        x = R.fpx_new(2)
+        y = R.fpx_new(2)
+        try:
+            for _ in range(50):
+                xv = (rng.randrange(p), rng.randrange(p))
+                R.fpx_put(x, xv)
+                R.call("ep2_rhs", y, x)
+                if R.call("fp2_srt", y, y).i == 1:
+                    yv = R.fpx_get(y, 2)[0]
+                    R.ep2_put(Q, xv, tuple(yv))
+                    return
+        finally:
+            R.free(x)
+            R.free(y)
+
+    def g2_plus_nonmember(self, Q):
+        """Q + T with T = [n]P' of cofactor order"""
+        R = self.R
+        T = R.new("g2")
+        try:
+            self.g2_nonmember(T)
+            R.bn_put(self.tb, R.n)
+            R.call("ep2_mul_basic", T, T, self.tb)
+            R.call("ep2_add_basic", Q, Q, T)
+            R.call("ep2_norm", Q, Q)
+        finally:
+            R.free(T)
+
+    def with_msg(self, fn, *args_before_after):
+        raise NotImplementedError
+
+    def call_m(self, fn, pre, post, msg):
+        """call fn(*pre, msg, len, *post)"""
+        R = self.R
+        m = R.bytes_in(msg)
+        try:
+            return R.call(fn, *(list(pre) + [m, len(msg)] + list(post)))
+        finally:
+            R.free(m)
+
+    def okres(self, res):
+        return not res.caught and res.i == self.R.OK
+
+
+class Bls(PairScheme):
+    name, sigfn, verfn = "bls", "cp_bls_sig", "cp_bls_ver"
+
+    def setup(self):
+        R = self.R
+        self.base_setup()
+        self.d, self.q, self.s = R.new("bn"), R.new("g2"), R.new("g1")
+        return self.okres(R.call("cp_bls_gen", self.d, self.q))
+
+    def sign(self, msg):
+        self.msg.val = msg
+        return self.okres(self.call_m("cp_bls_sig", [self.s], [self.d], msg))
+
+    def comps(self):
+        return [Comp("s", "g1", "sig", self.s), self.msg, Comp("q", "g2", "pk", self.q)]
+
+    def ver(self):
+        return self.call_m("cp_bls_ver", [self.s], [self.q], self.msg.val)
+
+    def eqn(self):
+        R = self.R
+        if not self.on1(self.s) or not self.valid2(self.q):
+            return False
+        m = R.bytes_in(self.msg.val)
+        try:
+            R.call("g1_map", self.t1, m, len(self.msg.val))
+        finally:
+            R.free(m)
+        R.call("g1_norm", self.t1, self.t1)
+        return self.pair_eq(self.t1, self.q, self.s, self.g2gen)
+
+
+class Bbs(PairScheme):
+    name, sigfn, verfn = "bbs", "cp_bbs_sig", "cp_bbs_ver"
+    hashed_flag = True
+
+    def setup(self):
+        R = self.R
+        self.base_setup()
+        self.d, self.q, self.z, self.s = R.new("bn"), R.new("g2"), R.new("gt"), R.new("g1")
+        return self.okres(R.call("cp_bbs_gen", self.d, self.q, self.z))
+
+    def sign(self, msg):
+        self.msg.val = msg
+        return self.okres(self.call_m("cp_bbs_sig", [self.s], [self.pre, self.d], msg))
+
+    def comps(self):
+        return [Comp("s", "g1", "sig", self.s), self.msg, Comp("q", "g2", "pk", self.q), Comp("z", "gt", "pk", self.z)]
+
+    def ver(self):
+        return self.call_m("cp_bbs_ver", [self.s], [self.pre, self.q, self.z], self.msg.val)
+
+    def eqn(self):
+        R = self.R
+        if not self.on1(self.s) or self.inf1(self.s) or R.call("ep2_on_curve", self.q).i != 1:
+            return False
+        m = self.m_int(self.msg.val, not self.pre)
+        self.g2_lin(self.t2, [(m, self.g2gen), (1, self.q)])
+        R.call("pc_map", self.e1, self.s, self.t2)
+        return R.call("gt_cmp", self.e1, self.z).i == R.EQ
+
+
+class Zss(PairScheme):
+    name, sigfn, verfn = "zss", "cp_zss_sig", "cp_zss_ver"
+    hashed_flag = True
+
+    def setup(self):
+        R = self.R
+        self.base_setup()
+        self.d, self.q, self.z, self.s = R.new("bn"), R.new("g1"), R.new("gt"), R.new("g2")
+        return self.okres(R.call("cp_zss_gen", self.d, self.q, self.z))
+
+    def sign(self, msg):
+        self.msg.val = msg
+        return self.okres(self.call_m("cp_zss_sig", [self.s], [self.pre, self.d], msg))
+
+    def comps(self):
+        return [Comp("s", "g2", "sig", self.s), self.msg, Comp("q", "g1", "pk", self.q), Comp("z", "gt", "pk", self.z)]
+
+    def ver(self):
+        return self.call_m("cp_zss_ver", [self.s], [self.pre, self.q, self.z], self.msg.val)
+
+    def eqn(self):
+        R = self.R
+        if not self.on1(self.q) or not self.valid2(self.s):
+            return False
+        m = self.m_int(self.msg.val, not self.pre)
+        self.g1_lin(self.t1, [(m, self.g1gen), (1, self.q)])
+        R.call("pc_map", self.e1, self.t1, self.s)
+        return R.call("gt_cmp", self.e1, self.z).i == R.EQ
+
+
+class Cls(PairScheme):
+    name, sigfn, verfn = "cls", "cp_cls_sig", "cp_cls_ver"
+    maxlen = 128
+
+    def setup(self):
+        R = self.R
+        self.base_setup()
+        self.u, self.v, self.x, self.y = R.new("bn"), R.new("bn"), R.new("g2"), R.new("g2")
+        self.a, self.b, self.c = R.new("g1"), R.new("g1"), R.new("g1")
+        return self.okres(R.call("cp_cls_gen", self.u, self.v, self.x, self.y))
+
+    def sign(self, msg):
+        self.msg.val = msg
+        return self.okres(self.call_m("cp_cls_sig", [self.a, self.b, self.c], [self.u, self.v], msg))
+
+    def comps(self):
+        return [Comp("a", "g1", "sig", self.a), Comp("b", "g1", "sig", self.b), Comp("c", "g1", "sig", self.c), self.msg,
+                Comp("x", "g2", "pk", self.x), Comp("y", "g2", "pk", self.y)]
+
+    def ver(self):
+        return self.call_m("cp_cls_ver", [self.a, self.b, self.c], [self.x, self.y], self.msg.val)
+
+    def eqn(self):
+        for P in (self.a, self.b, self.c):
+            if not self.on1(P) or self.inf1(P):
+                return False
+        if not (self.valid2(self.x) and self.valid2(self.y)):
+            return False
+        if not self.pair_eq(self.a, self.y, self.b, self.g2gen):
+            return False
+        m = self.m_int(self.msg.val, False)
+        self.g1_lin(self.t1, [(m, self.b), (1, self.a)])
+        return self.pair_eq(self.t1, self.x, self.c, self.g2gen)
+
+
+class Cli(PairScheme):
+    name, sigfn, verfn = "cli", "cp_cli_sig", "cp_cli_ver"
+    maxlen = 128
+
+    def setup(self):
+        R = self.R
+        self.base_setup()
+        self.t, self.u, self.v = R.new("bn"), R.new("bn"), R.new("bn")
+        self.x, self.y, self.z = R.new("g2"), R.new("g2"), R.new("g2")
+        self.pts = [R.new("g1") for _ in range(5)]      # a A b B c
+        self.r = R.new("bn")
+        return self.okres(R.call("cp_cli_gen", self.t, self.u, self.v, self.x, self.y, self.z))
+
+    def sign(self, msg):
+        R = self.R
+        self.msg.val = msg
+        R.bn_put(self.r, self.rng.randrange(R.n))
+        return self.okres(self.call_m("cp_cli_sig", self.pts, [self.r, self.t, self.u, self.v], msg))
+
+    def comps(self):
+        a, A, b, B, c = self.pts
+        return [Comp("a", "g1", "sig", a), Comp("A", "g1", "sig", A), Comp("b", "g1", "sig", b), Comp("B", "g1", "sig", B),
+                Comp("c", "g1", "sig", c), self.msg, Comp("r", "bn", "sig", self.r),
+                Comp("x", "g2", "pk", self.x), Comp("y", "g2", "pk", self.y), Comp("z", "g2", "pk", self.z)]
+
+    def ver(self):
+        return self.call_m("cp_cli_ver", self.pts, [self.r, self.x, self.y, self.z], self.msg.val)
+
+    def eqn(self):
+        R = self.R
+        a, A, b, B, c = self.pts
+        for P in self.pts:
+            if not self.on1(P) or self.inf1(P):
+                return False
+        if not (self.valid2(self.x) and self.valid2(self.y) and self.valid2(self.z)):
+            return False
+        g = self.g2gen
+        if not (self.pair_eq(a, self.z, A, g) and self.pair_eq(a, self.y, b, g) and self.pair_eq(A, self.y, B, g)):
+            return False
+        m = self.m_int(self.msg.val, False)
+        r = R.bn_get(self.r)[0]
+        self.g1_lin(self.t1, [(m, b), (r, B), (1, a)])
+        return self.pair_eq(self.t1, self.x, c, g)
+
+
+class Clb(PairScheme):
+    name, sigfn, verfn = "clb", "cp_clb_sig", "cp_clb_ver"
+    maxlen = 128
+    msg_kind = "bytes"
+
+    def __init__(self, ctx, R, l=3):
+        PairScheme.__init__(self, ctx, R)
+        self.l = l
+
+    def setup(self):
+        R, l = self.R, self.l
+        self.base_setup()
+        self.t, self.u, self.v = R.new("bn"), R.new("bn"), R.arr("bn", l - 1)
+        self.x, self.y, self.z = R.new("g2"), R.new("g2"), R.arr("g2", l - 1)
+        self.a, self.b, self.c = R.new("g1"), R.new("g1"), R.new("g1")
+        self.A, self.B = R.arr("g1", l - 1), R.arr("g1", l - 1)
+        self.msgs = [Comp("msg%d" % i, "bytes", "msg", val=b"") for i in range(l)]
+        self.msg = self.msgs[0]
+        return self.okres(R.call("cp_clb_gen", self.t, self.u, self.v, self.x, self.y, self.z, l))
+
+    def marshal(self):
+        R = self.R
+        blocks = [R.bytes_in(c.val) for c in self.msgs]
+        ms = R.ptr_array(blocks)
+        ls = R.ptr_array([len(c.val) for c in self.msgs])
+        return blocks, ms, ls
+
+    def release(self, blocks, ms, ls):
+        for b in blocks + [ms, ls]:
+            self.R.free(b)
+
+    def sign(self, msg):
+        R = self.R
+        self.msgs[0].val = msg
+        for c in self.msgs[1:]:
+            c.val = self.rbytes(self.rng.choice([0, 1, 16, 32]))
+        blocks, ms, ls = self.marshal()
+        try:
+            return self.okres(R.call("cp_clb_sig", self.a, self.A, self.b, self.B, self.c, ms, ls, self.t, self.u, self.v, self.l))
+        finally:
+            self.release(blocks, ms, ls)
+
+    def comps(self):
+        R, l = self.R, self.l
+        cs = [Comp("a", "g1", "sig", self.a), Comp("b", "g1", "sig", self.b), Comp("c", "g1", "sig", self.c)]
+        for i in range(l - 1):
+            cs.append(Comp("A[%d]" % i, "g1", "sig", self.A + i * R.ep_sz))
+            cs.append(Comp("B[%d]" % i, "g1", "sig", self.B + i * R.ep_sz))
+        cs += self.msgs
+        cs += [Comp("x", "g2", "pk", self.x), Comp("y", "g2", "pk", self.y)]
+        for i in range(l - 1):
+            cs.append(Comp("z[%d]" % i, "g2", "pk", self.z + i * R.g2_sz))
+        return cs
+
+    def ver(self):
+        R = self.R
+        blocks, ms, ls = self.marshal()
+        try:
+            return R.call("cp_clb_ver", self.a, self.A, self.b, self.B, self.c, ms, ls, self.x, self.y, self.z, self.l)
+        finally:
+            self.release(blocks, ms, ls)
+
+    def eqn(self):
+        R, l = self.R, self.l
+        g = self.g2gen
+        As = [self.A + i * R.ep_sz for i in range(l - 1)]
+        Bs = [self.B + i * R.ep_sz for i in range(l - 1)]
+        zs = [self.z + i * R.g2_sz for i in range(l - 1)]
+        for P in [self.a, self.b, self.c] + As + Bs:
+            if not self.on1(P) or self.inf1(P):
+                return False
+        for Q in [self.x, self.y] + zs:
+            if not self.valid2(Q):
+                return False
+        for i in range(l - 1):
+            if not self.pair_eq(self.a, zs[i], As[i], g):
+                return False
+            if not self.pair_eq(As[i], self.y, Bs[i], g):
+                return False
+        if not self.pair_eq(self.a, self.y, self.b, g):
+            return False
+        terms = [(self.m_int(self.msgs[0].val, False), self.b), (1, self.a)]
+        for i in range(1, l):
+            terms.append((self.m_int(self.msgs[i].val, False), Bs[i - 1]))
+        self.g1_lin(self.t1, terms)
+        return self.pair_eq(self.t1, self.x, self.c, g)
+
+
+class Pss(PairScheme):
+    name, sigfn, verfn = "pss", "cp_pss_sig", "cp_pss_ver"
+    msg_kind = "bn"
+
+    def setup(self):
+        R = self.R
+        self.base_setup()
+        self.u, self.v = R.new("bn"), R.new("bn")
+        self.g, self.x, self.y = R.new("g2"), R.new("g2"), R.new("g2")
+        self.a, self.b, self.m = R.new("g1"), R.new("g1"), R.new("bn")
+        return self.okres(R.call("cp_pss_gen", self.u, self.v, self.g, self.x, self.y))
+
+    def sign(self, msg):
+        R = self.R
+        R.bn_put(self.m, msg)
+        return self.okres(R.call("cp_pss_sig", self.a, self.b, self.m, self.u, self.v))
+
+    def comps(self):
+        return [Comp("a", "g1", "sig", self.a), Comp("b", "g1", "sig", self.b), Comp("m", "bn", "msg", self.m),
+                Comp("g", "g2", "pk", self.g), Comp("x", "g2", "pk", self.x), Comp("y", "g2", "pk", self.y)]
+
+    def ver(self):
+        return self.R.call("cp_pss_ver", self.a, self.b, self.m, self.g, self.x, self.y)
+
+    def eqn(self):
+        R = self.R
+        for P in (self.a, self.b):
+            if not self.on1(P):
+                return False
+        if self.inf1(self.a):
+            return False
+        for Q in (self.g, self.x, self.y):
+            if not self.valid2(Q):
+                return False
+        m = R.bn_get(self.m)[0]
+        self.g2_lin(self.t2, [(m % R.n, self.y), (1, self.x)])
+        return self.pair_eq(self.a, self.t2, self.b, self.g)
+
+
+class Psb(PairScheme):
+    name, sigfn, verfn = "psb", "cp_psb_sig", "cp_psb_ver"
+    msg_kind = "bn"
+
+    def __init__(self, ctx, R, l=3):
+        PairScheme.__init__(self, ctx, R)
+        self.l = l
+
+    def setup(self):
+        R, l = self.R, self.l
+        self.base_setup()
+        self.r, self.s = R.new("bn"), R.arr("bn", l)
+        self.g, self.x, self.y = R.new("g2"), R.new("g2"), R.arr("g2", l)
+        self.a, self.b, self.ms = R.new("g1"), R.new("g1"), R.arr("bn", l)
+        return self.okres(R.call("cp_psb_gen", self.r, self.s, self.g, self.x, self.y, l))
+
+    def sign(self, msg):
+        R = self.R
+        R.bn_put(self.ms, msg)
+        for i in range(1, self.l):
+            R.bn_put(self.ms + i * R.bn_sz, self.rng.randrange(R.n))
+        return self.okres(R.call("cp_psb_sig", self.a, self.b, self.ms, self.r, self.s, self.l))
+
+    def comps(self):
+        R, l = self.R, self.l
+        cs = [Comp("a", "g1", "sig", self.a), Comp("b", "g1", "sig", self.b)]
+        cs += [Comp("m[%d]" % i, "bn", "msg", self.ms + i * R.bn_sz) for i in range(l)]
+        cs += [Comp("g", "g2", "pk", self.g), Comp("x", "g2", "pk", self.x)]
+        cs += [Comp("y[%d]" % i, "g2", "pk", self.y + i * R.g2_sz) for i in range(l)]
+        return cs
+
+    def ver(self):
+        return self.R.call("cp_psb_ver", self.a, self.b, self.ms, self.g, self.x, self.y, self.l)
+
+    def eqn(self):
+        R, l = self.R, self.l
+        ys = [self.y + i * R.g2_sz for i in range(l)]
+        for P in (self.a, self.b):
+            if not self.on1(P):
+                return False
+        if self.inf1(self.a):
+            return False
+        for Q in [self.g, self.x] + ys:
+            if not self.valid2(Q):
+                return False
+        terms = [(R.bn_get(self.ms + i * R.bn_sz)[0] % R.n, ys[i]) for i in range(l)] + [(1, self.x)]
+        self.g2_lin(self.t2, terms)
+        return self.pair_eq(self.a, self.t2, self.b, self.g)
+
+
+def run_pairing(ctx):
+    R = PX(ctx.cfg)
+    rng = ctx.rng
+    q = ctx.quick
+    names = R.pairing_names()
+    ctx.note("curves", names)
+    di = 0
+    for ci, nm in enumerate(names):
+        R.set_curve(R.E[nm], pairing=True)
+        schemes = [Bls(ctx, R), Bbs(ctx, R), Zss(ctx, R), Cls(ctx, R), Cli(ctx, R), Clb(ctx, R, 3), Pss(ctx, R), Psb(ctx, R, 3)]
+        for si, sch in enumerate(schemes):
+            di += 1
+            sch.di = di * 1000
+            if not ctx.begin("%s|setup" % sch.sigfn.replace("_sig", "_gen"), [nm, sch.name]):
+                continue
+            try:
+                ok = sch.setup()
+                ctx.check(ok, ctx.cur_key + "|unexpected-error")
+            except MonitorViolation as e:
+                ctx.fail(ctx.cur_key + "|" + e.kind, e.detail)
+                ok = False
+            finally:
+                ctx.end()
+            if not ok:
+                continue
+            t0 = time.time()
+            n = R.n
+            # completeness
+            if sch.msg_kind == "bytes":
+                heavy = sch.name in ("cli", "clb")
+                stride = 5 if heavy else 1
+                for L in range(ci % stride, sch.maxlen + 1, stride):
+                    if sch.mine():
+                        sch.pre = 0
+                        sch.honest(nm, sch.rbytes(L), eq_rate=0.05)
+                if sch.hashed_flag:
+                    for L in range(0, 73):
+                        if sch.mine():
+                            sch.pre = 1
+                            sch.honest(nm, sch.rbytes(L), "honest,prehashed", eq_rate=0.05)
+                    sch.pre = 0
+            else:
+                for mv in [0, 1, 2, n - 1, n, n + 1, 2 * n + 5, 1 << 255, (1 << 256) - 1, rng.getrandbits(300)] + \
+                          [rng.randrange(n) for _ in range(6)]:
+                    if sch.mine():
+                        sch.honest(nm, mv, "honest,m>=n" if mv >= n else "honest", eq_rate=0.3)
+            ctx.add("seconds_completeness:" + sch.name, round(time.time() - t0, 1))
+            # mutation soundness
+            if not ctx.mine(di) and q:
+                continue
+            t0 = time.time()
+            for pre in ([0, 1] if sch.hashed_flag else [0]):
+                sch.pre = pre
+                base = sch.rbytes(rng.choice([1, 5, 20])) if sch.msg_kind == "bytes" else rng.randrange(n)
+                if not sch.honest(nm, base, "mutation-base"):
+                    continue
+                full = ()
+                if sch.name in ("bls", "bbs", "zss", "pss", "cls") or not q:
+                    full = set(c.name for c in sch.comps() if c.kind in ("bn", "bytes"))
+                sch.mutate(nm, full_names=full, sample=0.03)
+            sch.pre = 0
+            ctx.add("seconds_mutation:" + sch.name, round(time.time() - t0, 1))
+            sch.finish()
+    ctx.note("functions_exercised", sorted(k for k in R.fn_seen if k.startswith("cp_")))
+    ctx.note("error_codes_seen", {str(k): v for k, v in R.err_codes.items()})
+
+
 def run(ctx, part):
     if part == "ecdsa":
         run_ecdsa(ctx)
@@ -1394,5 +2072,7 @@ def run(ctx, part):
         run_ec(ctx)
     elif part == "rsa":
         run_rsa(ctx)
+    elif part == "pairing":
+        run_pairing(ctx)
     else:
         ctx.note("part-not-implemented", part)
